@@ -482,6 +482,7 @@ char *__wrap_setlocale(int cat, const char *loc) { on_event(); char *r = setloca
 }
 
 // ------------------------------------------------------------------ handlers
+void (*g_handler_hook)(int hid, int code) = nullptr;
 struct HandlerCall {
     int hid, kind, code;
     const char *msg;
@@ -500,6 +501,7 @@ static void handler_body(void *p_) {
     sim_log(LOG_HANDLER, ((uint64_t)t->id << 32) | (uint32_t)c->hid, (uint64_t)(uint32_t)c->code);
     h.seq = g_sim.seq;
     t->res[t->cur_op].hcalls.push_back(h);
+    if (g_handler_hook) g_handler_hook(c->hid, c->code);
     t->in_op = save;
 }
 void note_handler(int hid, int kind, const char *msg, int code) {
